@@ -24,6 +24,7 @@ class ANode:
     cls: LClass
     children: dict[str, object] = field(default_factory=dict)  # attr -> ANode | list[ANode] | str
     tag: str = ""  # atom name when formatted as a child
+    inst: dict = field(default_factory=dict)  # facts of this very instance that override class facts (a precedence assigned in __init__)
 
 
 class Atom:
@@ -289,6 +290,8 @@ class Eval:
                 return getattr(base, e.attr)
             if isinstance(base, ANode):
                 if e.attr == "precedence":
+                    if "precedence" in base.inst:
+                        return base.inst["precedence"]
                     if base.cls.precedence is None:
                         raise AnalysisError(f"{base.cls.name} has no precedence")
                     return base.cls.precedence
